@@ -5,11 +5,13 @@ Property theorems only (helper lemmas live in Asynkit/Lemmas/C08*.lean).
 Deque primitives (`Model/Deque`, the code of tools.deque_pop and loop/default.py) are proved equal
 to the list operations outright.  The compound operations of scheduling.py (`Model/Sched`) are
 proved for *every* queue implementation that is `ListLike`; `listLike_deque_loops` discharges that
-hypothesis for the stock asyncio loop and the SchedulingMixin loops.  For the priority loop with
-equal priorities `ListLike (posOps H draw) drainOrder Inv (· = 0)` is exactly the list of container
-theorems of C17 (`posInsert_spec`, `append_equal_pri_spec`, …), see notes/C08.md.
+hypothesis for the stock asyncio loop and the SchedulingMixin loops, `listLike_priority_loop` for
+the priority loop with equal priorities (every lawful heapq, every boost factor, every sequence of
+random draws; built on the container refinement of C17/C19).  `listLike_simulation`: any two
+list-like queues schedule identically for every history.
 -/
 import Asynkit.Lemmas.C08Sched
+import Asynkit.Lemmas.C08PosPQ
 
 namespace Asynkit.C08
 open Asynkit.Sched Asynkit.Deque
@@ -69,6 +71,21 @@ theorem callPos_spec {α : Type} (q : List α) (h : α) :
 
 theorem listLike_deque_loops : ListLike listOps id (fun q => q.Nodup) (fun _ => True) :=
   listOps_listLike
+
+/-- **the priority loop with equal priorities is list-like**: `PrioritySchedulingMixin` over
+    `PosPriorityQueue` (`posOps`), for every lawful heapq, every boost factor (the factor is a
+    field of the state and unconstrained by `PInv`) and every sequence of random draws; the
+    abstraction `absP` is the pop order, `PInv` = "refines a reference list of priority-0 entries
+    with distinct objects", appends are at priority 0 (what `get_priority` returns for callbacks,
+    plain Tasks and PriorityTasks of priority 0). -/
+theorem listLike_priority_loop {H : HeapLib (Entry PV)} (hl : H.Lawful (Entry.lt PV.lt)) (draw : Nat → Rat) :
+    ListLike (posOps H draw) absP PInv (fun p => p = 0) :=
+  posOps_listLike hl draw
+
+/-- the empty priority queue (any boost factor) satisfies the invariant and is the empty list -/
+theorem priority_loop_init (factor : Rat) :
+    PInv ({ factor := factor } : PosPQ) ∧ absP ({ factor := factor } : PosPQ) = [] :=
+  pinv_init factor
 
 /-! ### compound operations, for every list-like ready queue -/
 section compound
@@ -324,6 +341,103 @@ theorem each_runs_once (L : ListLike O abs Inv (fun p => p = 0)) (q0 : Q) (h0 : 
 
 end once
 
+/-! ### any two list-like ready queues schedule identically -/
+section simulation
+variable {Q1 Q2 : Type} {O1 : QOps Q1} {O2 : QOps Q2} {abs1 : Q1 → List Nat} {abs2 : Q2 → List Nat}
+  {Inv1 : Q1 → Prop} {Inv2 : Q2 → Prop}
+
+/-- the two histories are in step: same abstract queue, same handles out in the same order -/
+def InStep (abs1 : Q1 → List Nat) (abs2 : Q2 → List Nat) (Inv1 : Q1 → Prop) (Inv2 : Q2 → Prop)
+    (s1 : Hist Q1) (s2 : Hist Q2) : Prop :=
+  Inv1 s1.q ∧ Inv2 s2.q ∧ abs1 s1.q = abs2 s2.q ∧ s1.out = s2.out ∧ s1.ins = s2.ins
+
+theorem inStep_step (L1 : ListLike O1 abs1 Inv1 (fun p => p = 0)) (L2 : ListLike O2 abs2 Inv2 (fun p => p = 0))
+    (s1 : Hist Q1) (s2 : Hist Q2) (e : QEv) (h : InStep abs1 abs2 Inv1 Inv2 s1 s2)
+    (ha : Admissible abs1 s1 e) : InStep abs1 abs2 Inv1 Inv2 (stepEv O1 s1 e) (stepEv O2 s2 e) := by
+  obtain ⟨i1, i2, ha12, ho, hi⟩ := h
+  cases e with
+  | append x =>
+    have hx2 : x ∉ abs2 s2.q := ha12 ▸ ha
+    obtain ⟨a1, a2⟩ := L1.append s1.q 0 x i1 rfl ha
+    obtain ⟨b1, b2⟩ := L2.append s2.q 0 x i2 rfl hx2
+    exact ⟨a1, b1, by show abs1 (O1.append s1.q 0 x) = abs2 (O2.append s2.q 0 x); rw [a2, b2, ha12], ho,
+      by show x :: s1.ins = x :: s2.ins; rw [hi]⟩
+  | insertPos p x =>
+    have hx2 : x ∉ abs2 s2.q := ha12 ▸ ha
+    obtain ⟨a1, a2⟩ := L1.insertPos s1.q p x i1 ha
+    obtain ⟨b1, b2⟩ := L2.insertPos s2.q p x i2 hx2
+    exact ⟨a1, b1, by show abs1 (O1.insertPos s1.q p x) = abs2 (O2.insertPos s2.q p x); rw [a2, b2, ha12], ho,
+      by show x :: s1.ins = x :: s2.ins; rw [hi]⟩
+  | callPos p x =>
+    have hx2 : x ∉ abs2 s2.q := ha12 ▸ ha
+    obtain ⟨a1, a2⟩ := L1.callPos s1.q p x i1 ha
+    obtain ⟨b1, b2⟩ := L2.callPos s2.q p x i2 hx2
+    exact ⟨a1, b1, by show abs1 (O1.callPos s1.q p x) = abs2 (O2.callPos s2.q p x); rw [a2, b2, ha12], ho,
+      by show x :: s1.ins = x :: s2.ins; rw [hi]⟩
+  | findRm key =>
+    by_cases hex : ∃ x ∈ abs1 s1.q, key x = true
+    · obtain ⟨x, hx, hk⟩ := hex
+      have hu1 : ∀ y ∈ abs1 s1.q, key y = true → y = x := fun y hy hky => ha y hy x hx hky hk
+      obtain ⟨f1, f2, f3⟩ := L1.find_some s1.q key true x i1 hx hk hu1
+      obtain ⟨g1, g2, g3⟩ := L2.find_some s2.q key true x i2 (ha12 ▸ hx) hk (ha12 ▸ hu1)
+      simp only [stepEv]
+      rcases hf : O1.find s1.q key true with ⟨r1, q1⟩
+      rcases hg : O2.find s2.q key true with ⟨r2, q2⟩
+      rw [hf] at f1 f2 f3
+      rw [hg] at g1 g2 g3
+      simp only at f1 f2 f3 g1 g2 g3
+      subst f1; subst g1
+      simp only [if_true] at f3 g3
+      exact ⟨f2, g2, by show abs1 q1 = abs2 q2; rw [f3, g3, ha12], by show x :: s1.out = x :: s2.out; rw [ho], hi⟩
+    · have hn1 : ∀ x ∈ abs1 s1.q, key x = false := by
+        intro x hx
+        cases hkx : key x with
+        | false => rfl
+        | true => exact absurd ⟨x, hx, hkx⟩ hex
+      simp only [stepEv, L1.find_none s1.q key true i1 hn1, L2.find_none s2.q key true i2 (ha12 ▸ hn1)]
+      exact ⟨i1, i2, ha12, ho, hi⟩
+  | remove x =>
+    by_cases hm : x ∈ abs1 s1.q
+    · obtain ⟨q1, r1, r2, r3⟩ := L1.remove_some s1.q x i1 hm
+      obtain ⟨q2, t1, t2, t3⟩ := L2.remove_some s2.q x i2 (ha12 ▸ hm)
+      simp only [stepEv, r1, t1]
+      exact ⟨r2, t2, by show abs1 q1 = abs2 q2; rw [r3, t3, ha12], by show x :: s1.out = x :: s2.out; rw [ho], hi⟩
+    · simp only [stepEv, L1.remove_none s1.q x i1 hm, L2.remove_none s2.q x i2 (ha12 ▸ hm)]
+      exact ⟨i1, i2, ha12, ho, hi⟩
+  | popleft =>
+    cases hq : abs1 s1.q with
+    | nil =>
+      simp only [stepEv, L1.popleft_nil s1.q i1 hq, L2.popleft_nil s2.q i2 (ha12 ▸ hq)]
+      exact ⟨i1, i2, ha12, ho, hi⟩
+    | cons x t =>
+      obtain ⟨q1, p1, p2, p3⟩ := L1.popleft_cons s1.q x t i1 hq
+      obtain ⟨q2, u1, u2, u3⟩ := L2.popleft_cons s2.q x t i2 (ha12 ▸ hq)
+      simp only [stepEv, p1, u1]
+      exact ⟨p2, u2, by show abs1 q1 = abs2 q2; rw [p3, u3], by show x :: s1.out = x :: s2.out; rw [ho], hi⟩
+
+/-- **two list-like ready queues schedule identically, whatever the history**: run the same
+    admissible history of queue operations on both from empty queues — after every prefix the
+    abstract queues are equal and the same handles have been run / taken out in the same order.
+    With `listLike_deque_loops` and `listLike_priority_loop` this is: the priority loop with equal
+    priorities (boosting at any setting) schedules exactly like the plain scheduling loop. -/
+theorem listLike_simulation (L1 : ListLike O1 abs1 Inv1 (fun p => p = 0)) (L2 : ListLike O2 abs2 Inv2 (fun p => p = 0))
+    (q1 : Q1) (q2 : Q2) (h1 : Inv1 q1) (h2 : Inv2 q2) (e1 : abs1 q1 = []) (e2 : abs2 q2 = [])
+    (evs : List QEv) (ha : AllAdmissible O1 abs1 { q := q1 } evs) :
+    abs1 (runEvs O1 { q := q1 } evs).q = abs2 (runEvs O2 { q := q2 } evs).q ∧
+    (runEvs O1 { q := q1 } evs).out = (runEvs O2 { q := q2 } evs).out := by
+  have key : ∀ (evs : List QEv) (s1 : Hist Q1) (s2 : Hist Q2), InStep abs1 abs2 Inv1 Inv2 s1 s2 →
+      AllAdmissible O1 abs1 s1 evs → InStep abs1 abs2 Inv1 Inv2 (runEvs O1 s1 evs) (runEvs O2 s2 evs) := by
+    intro evs
+    induction evs with
+    | nil => intro s1 s2 hs _; exact hs
+    | cons e es ih =>
+      intro s1 s2 hs ha
+      exact ih _ _ (inStep_step L1 L2 s1 s2 e hs ha.1) ha.2
+  have h := key evs { q := q1 } { q := q2 } ⟨h1, h2, by rw [e1, e2], rfl, rfl⟩ ha
+  exact ⟨h.2.2.1, h.2.2.2.1⟩
+
+end simulation
+
 /-! ### non-vacuity: the hypotheses are met by non-trivial states, and the statements compute -/
 
 example : dequePop [10, 11, 12, 13, 14, 15, 16, 17] 1 = some (11, [10, 12, 13, 14, 15, 16, 17]) := by decide
@@ -347,6 +461,28 @@ example : ∃ q', sleepInsert listOps [1, 2, 3] 8 9 0 (· == 9) 1 = some q' ∧ 
     q' = [1, 2, 3].insertIdx (min 1 3) 9 :=
   sleepInsert_spec listLike_deque_loops [1, 2, 3] 8 9 0 (· == 9) 1 (by decide) trivial
     (by decide) (by decide) (by decide) (by decide) (by decide)
+/-- the priority-loop instance is not vacuous: a reachable state of the priority queue (default
+    boost factor 1.2, two queued handles) satisfies `PInv`, and `sleep_insert(1)` from it puts the
+    caller second — by `sleepInsert_spec` through `listLike_priority_loop` -/
+example : let H := sortedHeap (Entry PV)
+    let d : Nat → Rat := fun _ => 1 / 2
+    let s0 := PosPQ.appendPri H (PosPQ.appendPri H {} 1 0 d) 2 0 d
+    PInv s0 ∧ absP s0 = [1, 2] ∧
+    ∃ q', sleepInsert (posOps H d) s0 8 9 0 (· == 9) 1 = some q' ∧ PInv q' ∧ absP q' = [1, 9, 2] := by
+  intro H d s0
+  have hl : H.Lawful (Entry.lt PV.lt) := sortedHeap_lawful (entryLt_strictWeak pv_strictWeak)
+  have h0 := priority_loop_init (6 / 5)
+  have h1 := pinv_append hl d _ h0.1 1 (by rw [h0.2]; simp)
+  have h2 := pinv_append hl d _ h1.1 2 (by rw [h1.2, h0.2]; simp)
+  have ha : absP s0 = [1, 2] := by
+    show absP (PosPQ.appendPri H (PosPQ.appendPri H {} 1 0 d) 2 0 d) = _
+    rw [h2.2, h1.2, h0.2]; rfl
+  refine ⟨h2.1, ha, ?_⟩
+  have := sleepInsert_spec (listLike_priority_loop hl d) s0 8 9 0 (· == 9) 1 h2.1 rfl
+    (by rw [ha]; decide) (by rw [ha]; decide) (by decide) (by decide) (by rw [ha]; decide)
+  rw [ha] at this
+  exact this
+
 /-- a history meeting `AllAdmissible` on the deque loops -/
 example : AllAdmissible listOps id { q := ([] : List Nat) }
     [.append 1, .append 2, .callPos 0 3, .popleft, .findRm (· == 2), .insertPos 0 2, .remove 1, .popleft] := by
